@@ -399,14 +399,14 @@ func (r *Rel) ParamSides() map[string]string {
 type AtomKind string
 
 const (
-	ANeq      AtomKind = "neq"           // twin values differ
-	AEq       AtomKind = "eq"            // twin values equal
-	AGt       AtomKind = "gt(2>1)"       // side-2 value greater than side-1 twin
-	ALt       AtomKind = "lt(2<1)"       // side-2 value smaller
-	AMissing2 AtomKind = "missing-in-2"  // key of side 1 absent from side-2 collection
-	AMissing1 AtomKind = "missing-in-1"  // key of side 2 absent from side-1 collection
-	APresent  AtomKind = "present-both"  // lookup succeeded
-	AUnary    AtomKind = "unary"         // predicate over one side only
+	ANeq      AtomKind = "neq"          // twin values differ
+	AEq       AtomKind = "eq"           // twin values equal
+	AGt       AtomKind = "gt(2>1)"      // side-2 value greater than side-1 twin
+	ALt       AtomKind = "lt(2<1)"      // side-2 value smaller
+	AMissing2 AtomKind = "missing-in-2" // key of side 1 absent from side-2 collection
+	AMissing1 AtomKind = "missing-in-1" // key of side 2 absent from side-1 collection
+	APresent  AtomKind = "present-both" // lookup succeeded
+	AUnary    AtomKind = "unary"        // predicate over one side only
 	AOther    AtomKind = "other"
 )
 
@@ -697,13 +697,13 @@ type Site struct {
 	Fn      *ast.FuncDecl
 	FnName  string
 	Pos     token.Pos
-	Code    string   // constant name, or "" when parametric
+	Code    string     // constant name, or "" when parametric
 	Param   *types.Var // when the code is a parameter of Fn
 	Guards  []Lit
 	Atoms   []Atom
 	Derived []Trig // derived triggers (see Triggers)
-	Via     string   // "literal" | "assign" | "callarg"
-	Inherit bool     // guards were extended with the call sites' common guards
+	Via     string // "literal" | "assign" | "callarg"
+	Inherit bool   // guards were extended with the call sites' common guards
 }
 
 func (s *Site) Key() string {
